@@ -637,4 +637,254 @@ theorem run_abs {st : RecSt} (hinv : Rec.Inv fields st) (hN : fields.length ≠ 
     rw [h1, ← h2]
     exact ⟨by rw [ih'.1], ih'.2.1, ih'.2.2⟩
 
+
+/-! ### ill-formed operations, readers, abstract content -/
+
+theorem rec_setAt_bad (st : RecSt) (hN : fields.length ≠ 0) (i : Int) (a : Option Arg)
+    (h : (pyIdx fields.length i).isNone = true ∨ a = some .bad) : Rec.setAt fields st i a = none := by
+  unfold Rec.setAt
+  simp only [hN, ne_eq, not_false_eq_true, if_true]
+  cases hk : pyIdx fields.length i with
+  | none => rfl
+  | some k =>
+    rcases h with h | h
+    · simp [hk] at h
+    · subst h
+      simp only
+      cases fields[k]? <;> rfl
+
+/-- **ill-formed operations raise and change nothing** (records with declared fields) -/
+theorem rec_illformed {st : RecSt} (hinv : Rec.Inv fields st) (hN : fields.length ≠ 0) (op : RecOp)
+    (h : illFormed fields op = true) :
+    (Rec.step fields st op).2.isErr = true ∧ (Rec.step fields st op).1 = st := by
+  have hname : ∀ k, fields.length ≤ k → Rec.posOfName fields st k = none := by
+    intro k hk; simp [Rec.posOfName, Rec.nNames, hN]; omega
+  have htype : ∀ k, fields.length ≤ k → Rec.posOfType fields k = none := by
+    intro k hk; simp [Rec.posOfType]; omega
+  have hget : ∀ i, (pyIdx fields.length i).isNone = true → Rec.getAt fields st i true = (st, .libErr) := by
+    intro i hi
+    unfold Rec.getAt
+    have hs := slot_getD hinv i
+    cases hk : pyIdx fields.length i with
+    | some k => simp [hk] at hi
+    | none =>
+      rw [hk] at hs
+      simp only [hs, Option.getD_none, Bool.not_true, Bool.false_eq_true, if_false, Comp.isHole, if_true,
+        rec_setAt_bad st hN i none (.inl hi)]
+  cases op with
+  | setItemPos i a =>
+    simp only [illFormed, Bool.or_eq_true, beq_iff_eq] at h
+    simp only [Rec.step, Rec.setOut, rec_setAt_bad st hN i (some a) (h.imp id (by intro e; rw [e]))]
+    exact ⟨by first | rfl | trivial | simp [Out.isErr], by first | rfl | trivial⟩
+  | setPos i a =>
+    simp only [illFormed, Bool.or_eq_true, beq_iff_eq] at h
+    simp only [Rec.step, Rec.setOut, rec_setAt_bad st hN i (some a) (h.imp id (by intro e; rw [e]))]
+    exact ⟨by first | rfl | trivial | simp [Out.isErr], by first | rfl | trivial⟩
+  | setNone i =>
+    simp only [illFormed] at h
+    simp only [Rec.step, Rec.setOut, rec_setAt_bad st hN i none (.inl h)]
+    exact ⟨by first | rfl | trivial | simp [Out.isErr], by first | rfl | trivial⟩
+  | setItemName k a =>
+    simp only [illFormed, Bool.or_eq_true, decide_eq_true_eq, beq_iff_eq] at h
+    simp only [Rec.step, Rec.setOut]
+    rcases h with h | h
+    · rw [hname k h]; exact ⟨by first | rfl | trivial | simp [Out.isErr], by first | rfl | trivial⟩
+    · cases Rec.posOfName fields st k with
+      | none => exact ⟨by first | rfl | trivial | simp [Out.isErr], by first | rfl | trivial⟩
+      | some i => simp only [rec_setAt_bad st hN i (some a) (.inr (by rw [h]))]; exact ⟨by first | rfl | trivial | simp [Out.isErr], by first | rfl | trivial⟩
+  | setName k a =>
+    simp only [illFormed, Bool.or_eq_true, decide_eq_true_eq, beq_iff_eq] at h
+    simp only [Rec.step, Rec.setOut]
+    rcases h with h | h
+    · rw [hname k h]; exact ⟨by first | rfl | trivial | simp [Out.isErr], by first | rfl | trivial⟩
+    · cases Rec.posOfName fields st k with
+      | none => exact ⟨by first | rfl | trivial | simp [Out.isErr], by first | rfl | trivial⟩
+      | some i => simp only [rec_setAt_bad st hN i (some a) (.inr (by rw [h]))]; exact ⟨by first | rfl | trivial | simp [Out.isErr], by first | rfl | trivial⟩
+  | setType k a =>
+    simp only [illFormed, Bool.or_eq_true, decide_eq_true_eq, beq_iff_eq] at h
+    simp only [Rec.step, Rec.setOut]
+    rcases h with h | h
+    · rw [htype k h]; exact ⟨by first | rfl | trivial | simp [Out.isErr], by first | rfl | trivial⟩
+    · cases Rec.posOfType fields k with
+      | none => exact ⟨by first | rfl | trivial | simp [Out.isErr], by first | rfl | trivial⟩
+      | some i => simp only [rec_setAt_bad st hN i (some a) (.inr (by rw [h]))]; exact ⟨by first | rfl | trivial | simp [Out.isErr], by first | rfl | trivial⟩
+  | getItemPos i =>
+    simp only [illFormed] at h
+    simp only [Rec.step, hget i h]; exact ⟨by first | rfl | trivial | simp [Out.isErr], by first | rfl | trivial⟩
+  | getPos i inst =>
+    cases inst with
+    | false => simp [illFormed] at h
+    | true => simp only [illFormed] at h; simp only [Rec.step, hget i h]; exact ⟨by first | rfl | trivial | simp [Out.isErr], by first | rfl | trivial⟩
+  | getItemName k =>
+    simp only [illFormed, decide_eq_true_eq] at h
+    simp only [Rec.step, hname k h]; exact ⟨by first | rfl | trivial | simp [Out.isErr], by first | rfl | trivial⟩
+  | getName k inst =>
+    simp only [illFormed, decide_eq_true_eq] at h
+    simp only [Rec.step, hname k h]; exact ⟨by first | rfl | trivial | simp [Out.isErr], by first | rfl | trivial⟩
+  | getType k inst =>
+    simp only [illFormed, decide_eq_true_eq] at h
+    simp only [Rec.step, htype k h]; exact ⟨by first | rfl | trivial | simp [Out.isErr], by first | rfl | trivial⟩
+  | clear | reset | clone _ | len | keys | contains _ | values | items | pretty | eqTo _ | encode _ =>
+    simp [illFormed] at h
+
+/-- readers leave the prototype state alone -/
+theorem dict_reader (s : DictSpec.St) (op : RecOp) (h : isReader fields s op = true) :
+    (DictSpec.step fields s op).1 = s := by
+  have hget : ∀ i inst, (inst = false ∨ (cur fields s i).isSome = true) → (DictSpec.getAt fields s i inst).1 = s := by
+    intro i inst hc
+    unfold DictSpec.getAt
+    cases hcur : cur fields s i with
+    | some z => rfl
+    | none =>
+      rcases hc with hc | hc
+      · subst hc; rfl
+      · simp [hcur] at hc
+  cases op with
+  | len => simp only [DictSpec.step]; cases s <;> rfl
+  | keys => rfl
+  | contains _ => rfl
+  | pretty => simp only [DictSpec.step]; cases s <;> rfl
+  | eqTo _ => simp only [DictSpec.step]; cases s <;> rfl
+  | getItemPos i => simp only [isReader] at h; simpa [DictSpec.step] using hget i true (.inr h)
+  | getPos i inst =>
+    cases inst with
+    | false => exact hget i false (.inl rfl)
+    | true => simp only [isReader] at h; exact hget i true (.inr h)
+  | getItemName k =>
+    simp only [isReader] at h
+    simp only [DictSpec.step]
+    cases hp : DictSpec.posOfName fields k with
+    | none => rfl
+    | some i => rw [hp] at h; exact hget i true (.inr h)
+  | getName k inst =>
+    simp only [DictSpec.step]
+    cases hp : DictSpec.posOfName fields k with
+    | none => rfl
+    | some i =>
+      cases inst with
+      | false => exact hget i false (.inl rfl)
+      | true => simp only [isReader, hp] at h; exact hget i true (.inr h)
+  | getType k inst =>
+    simp only [DictSpec.step]
+    cases hp : DictSpec.posOfName fields k with
+    | none => rfl
+    | some i =>
+      cases inst with
+      | false => exact hget i false (.inl rfl)
+      | true => simp only [isReader, hp] at h; exact hget i true (.inr h)
+  | encode e =>
+    simp only [isReader, DictSpec.isValue] at h
+    simp only [DictSpec.step]
+    cases s with
+    | none => simp at h
+    | some l => simp only [h, if_true]
+  | setItemPos _ _ | setItemName _ _ | setPos _ _ | setName _ _ | setType _ _ | setNone _ | clear | reset
+    | clone _ | values | items => simp [isReader] at h
+
+theorem absField_spec (fk : FK) (c : Comp) (h : ∀ d, fk = .dflt d → c ≠ .ph) :
+    Rec.absField fk c = DictSpec.absField fk c.get? := by
+  cases fk with
+  | req => cases c <;> rfl
+  | opt => cases c <;> rfl
+  | dflt d =>
+    cases c with
+    | hole => rfl
+    | val z => rfl
+    | ph => exact absurd rfl (h d rfl)
+
+theorem absFields_spec (fks : List FK) (l : List Comp)
+    (h : ∀ (k : Nat) (d : Int), fks[k]? = some (FK.dflt d) → l[k]? ≠ some Comp.ph) :
+    Rec.absFields fks l = DictSpec.absFields fks (l.map Comp.get?) := by
+  induction fks generalizing l with
+  | nil => rfl
+  | cons fk fks ih =>
+    have h0 : ∀ d, fk = .dflt d → l.headD .hole ≠ .ph := by
+      intro d hd hph
+      cases l with
+      | nil => simp at hph
+      | cons c t => exact h 0 d (by simp [hd]) (by simpa using hph)
+    have ht : ∀ (k : Nat) (d : Int), fks[k]? = some (FK.dflt d) → l.tail[k]? ≠ some Comp.ph := by
+      intro k d hk
+      cases l with
+      | nil => simp
+      | cons c t => simpa using h (k + 1) d (by simpa using hk)
+    show (match Rec.absField fk (l.headD .hole), Rec.absFields fks l.tail with
+      | some v, some vs => some (v :: vs) | _, _ => none) =
+      (match DictSpec.absField fk ((l.map Comp.get?).headD none), DictSpec.absFields fks (l.map Comp.get?).tail with
+      | some v, some vs => some (v :: vs) | _, _ => none)
+    rw [absField_spec fk _ h0, ih l.tail ht]
+    cases l <;> simp [Comp.get?]
+
+/-- abstract content is a function of the prototype state -/
+theorem abs_spec {st : RecSt} (hinv : Rec.Inv fields st) (hN : fields.length ≠ 0) :
+    Rec.abs fields st = DictSpec.abs fields (Rec.absD st) := by
+  unfold Rec.abs DictSpec.abs Rec.absD
+  cases hc : st.comps with
+  | none => rfl
+  | some l =>
+    simp only [hN, ne_eq, not_false_eq_true, if_true, Option.map_some]
+    rw [absFields_spec fields l (hinv.2 l hc).2]
+
+
+/-! ### touching an unset key does not change the abstract content -/
+
+theorem dabsFields_cons (fk : FK) (fks : List FK) (l : List (Option Int)) :
+    DictSpec.absFields (fk :: fks) l =
+      match DictSpec.absField fk (l.headD none), DictSpec.absFields fks l.tail with
+      | some v, some vs => some (v :: vs)
+      | _, _ => none := rfl
+
+theorem dabsFields_replicate (fks : List FK) (m : Nat) :
+    DictSpec.absFields fks (List.replicate m none) = DictSpec.absFields fks [] := by
+  induction fks generalizing m with
+  | nil => rfl
+  | cons fk fks ih =>
+    rw [dabsFields_cons, dabsFields_cons]
+    cases m with
+    | zero => rfl
+    | succ m =>
+      simp only [List.replicate_succ, List.headD_cons, List.tail_cons, List.headD_nil, List.tail_nil]
+      rw [ih m]
+
+theorem dabsField_touch (fk : FK) : DictSpec.absField fk (dflt fk) = DictSpec.absField fk none := by
+  cases fk <;> rfl
+
+theorem dabsFields_set (fks : List FK) (l : List (Option Int)) (k : Nat) (fk : FK)
+    (hfk : fks[k]? = some fk) (hcur : (l[k]?).bind id = none) :
+    DictSpec.absFields fks (l.set k (dflt fk)) = DictSpec.absFields fks l := by
+  induction fks generalizing l k with
+  | nil => rfl
+  | cons f fks ih =>
+    cases l with
+    | nil => rfl
+    | cons x t =>
+      cases k with
+      | zero =>
+        simp only [List.getElem?_cons_zero, Option.some.injEq] at hfk
+        subst hfk
+        simp only [List.getElem?_cons_zero, Option.bind_some, id] at hcur
+        subst hcur
+        rw [List.set_cons_zero, dabsFields_cons, dabsFields_cons]
+        simp only [List.headD_cons, List.tail_cons, dabsField_touch]
+      | succ k =>
+        simp only [List.getElem?_cons_succ] at hfk hcur
+        rw [List.set_cons_succ, dabsFields_cons, dabsFields_cons]
+        simp only [List.headD_cons, List.tail_cons]
+        rw [ih t k hfk hcur]
+
+/-- allocating the slots and giving an unset key its DEFAULT keeps the abstract content -/
+theorem abs_touch (fields : List FK) (l : List (Option Int)) (k : Nat) (fk : FK)
+    (hfk : fields[k]? = some fk) (hcur : (l[k]?).bind id = none) :
+    DictSpec.abs fields (some ((alloc fields (some l)).set k (dflt fk))) = DictSpec.abs fields (some l) := by
+  simp only [DictSpec.abs, alloc, Option.getD_some]
+  congr 1
+  by_cases he : l.isEmpty = true
+  · have : l = [] := by simpa using he
+    subst this
+    simp only [List.isEmpty_nil, if_true]
+    rw [dabsFields_set fields _ k fk hfk (by
+      rw [List.getElem?_replicate]; split <;> rfl), dabsFields_replicate]
+  · simp only [he, Bool.false_eq_true, if_false]
+    exact dabsFields_set fields l k fk hfk hcur
+
 end Asn1.Container
